@@ -134,6 +134,8 @@ func vReadmeOps() []vOp {
 		{q: `query($n: String, $l: String, $x: Int) { findHumans(filter: [{name: $n, tags: [{label: $l, weight: $x}]}], grid: [[1, $x], [$x]]) { name phone } }`, vars: func() map[string]interface{} {
 			return map[string]interface{}{"n": "nn", "l": "ll", "x": verifInt("var_x", 0, 9)}
 		}},
+		// an explicit null is a value: the declared default does not replace it
+		{q: `query($c: Int = 4, $u: Boolean = true) { me { phone(cc: $c) name(upper: $u) } }`, vars: func() map[string]interface{} { return map[string]interface{}{"c": nil} }},
 		{q: `query($c: Int = 4) { me { phone(cc: $c) } }`, vars: func() map[string]interface{} { return map[string]interface{}{"c": verifInt("var_c", 0, 9)} }},
 	}
 }
